@@ -13,7 +13,7 @@ import gen_exec as G
 class C02(Prop):
     id = "C02"
     driver = "Blocks"
-    lean_modules = ["Pfb.C02.Props", "Pfb.C05.Props", "Pfb.C04.Props"]
+    lean_modules = ["Pfb.C02.Props", "Pfb.C05.Props", "Pfb.C04.Props", "Pfb.C02.Equiv"]
     theorems = [
         # the analysis side of "no import whose binding is read is ever removed" (proved over the PyCore model,
         # which C05's correspondence ties to _MissingImportFinder): a read import is never reported unused
@@ -28,6 +28,23 @@ class C02(Prop):
         "Pfb.C02.shadow_subset",
         "Pfb.C02.C02_d10_witness",
         "Pfb.C03.fromImportsShadow_unique",
+        # re-ordering / de-duplicating an import block, stated on the reference semantics (Exec) itself
+        "Pfb.C02.C02_reorder_equiv_fragB",
+        "Pfb.C02.C02_swap_equiv_fragB",
+        "Pfb.C02.C02_drop_shadowed_equiv_fragB",
+        "Pfb.C02.C02_split_from_equiv_fragB",
+        "Pfb.C02.reorder_core",
+        "Pfb.C02.importStmt_spec",
+        "Pfb.C02.execStmts_imports",
+        "Pfb.C02.execOne_impOf",
+        "Pfb.C02.foldl_bridge",
+        "Pfb.C02.stmtsRel",
+        "Pfb.C02.witness_d10_exec",
+        "Pfb.C02.witness_d10_not_same",
+        "Pfb.C02.witness_d10_perm",
+        "Pfb.C02.witness_d10_hyps",
+        "Pfb.C02.minv_empty",
+        "Pfb.C02.loadModule_spec",
     ]
     anchors = [
         ("lib/python/pyflyby/_autoimp.py", "_MissingImportFinder._scan_unused_imports"),
@@ -259,7 +276,31 @@ def fam_dead_rebinding_import(case, failure):
     for n in _global_loads(tree, name):
         if (n.lineno, n.col_offset) >= last:
             return False
-    # and the name is not exported via __all__ / doctest (those count as uses)
+    # a read inside a def / lambda body runs later, whatever its position in the text: it uses the LAST binding
+    # (D32 / D19, repaired) — not this family
+    deferred = set()
+    for f in ast.walk(tree):
+        if isinstance(f, (ast.FunctionDef, ast.AsyncFunctionDef, ast.Lambda)):
+            body = f.body if isinstance(f.body, list) else [f.body]
+            for b in body:
+                deferred.update(id(x) for x in ast.walk(b))
+    if any(id(n) in deferred for n in _global_loads(tree, name)):
+        return False
+    # a name exported through a literal __all__ (looked up when the module is complete; D48, repaired) or mentioned
+    # in a doctest line counts as read after the last import
+    for n in ast.walk(tree):
+        tgt = None
+        if isinstance(n, ast.Assign) and any(isinstance(t, ast.Name) and t.id == "__all__" for t in n.targets):
+            tgt = n.value
+        if isinstance(n, ast.AugAssign) and isinstance(n.target, ast.Name) and n.target.id == "__all__":
+            tgt = n.value
+        if tgt is not None and any(isinstance(c, ast.Constant) and c.value == name for c in ast.walk(tgt)):
+            return False
+        if isinstance(n, ast.Constant) and isinstance(n.value, str) and ">>>" in n.value:
+            import re as _re
+            for line in n.value.splitlines():
+                if line.strip().startswith((">>>", "...")) and _re.search(r"\b%s\b" % _re.escape(name), line):
+                    return False
     return True
 
 
